@@ -30,6 +30,57 @@ def _detector(H, W):
     return det
 
 
+def equiv_routes(arr, placed, f, wd, H, W, pos, align):
+    """(name, fn(fitted: bool) -> tuple of arrays) for the models that take a map with position / align."""
+    from pyxel.models.charge_collection import fixed_pattern_noise, persistence
+    from pyxel.models.charge_generation import conversion_with_qe_map
+    scale = float(max(1.0, np.abs(arr).max()))
+    f_unit = os.path.join(wd, "unit.npy"); np.save(f_unit, arr / scale)                 # values in [0, 1]
+    f_fit = os.path.join(wd, "fitted.npy"); np.save(f_fit, placed)
+    f_fit_unit = os.path.join(wd, "fitted_unit.npy"); np.save(f_fit_unit, placed / scale)
+    f_half = os.path.join(wd, "half.npy"); np.save(f_half, np.full((H, W), 0.5))
+
+    def kw(fitted, prefix=""):
+        return ({prefix + "position": (0, 0), prefix + "align": None} if fitted
+                else {prefix + "position": pos, prefix + "align": align})
+
+    def qe(fitted):
+        det = _detector(H, W)
+        det.photon.array = np.full((H, W), 1000.0)
+        conversion_with_qe_map(det, filename=f_fit_unit if fitted else f_unit, binomial_sampling=False, **kw(fitted))
+        return (det.charge.array,)
+
+    def fpn(fitted):
+        det = _detector(H, W)
+        det.pixel.array = np.full((H, W), 1000.0)
+        fixed_pattern_noise(det, filename=f_fit_unit if fitted else f_unit, **kw(fitted))
+        return (det.pixel.array,)
+
+    def _cmos():
+        det = px.make_detector("cmos", H, W)
+        det.set_readout(times=[1.0], start_time=0.0)
+        det.readout_properties.time = 1.0
+        det.readout_properties.time_step = 1.0
+        det.empty()
+        det.pixel.array = np.full((H, W), 1000.0)
+        return det
+
+    def pers_cap(fitted):
+        det = _cmos()
+        persistence(det, trap_time_constants=[1.0], trap_proportions=[1.0], trap_densities_filename=f_half,
+                    trap_capacities_filename=f_fit if fitted else f, **kw(fitted, "trap_capacities_"))
+        return (np.array(det.persistence.trapped_charge_array), det.pixel.array)
+
+    def pers_dens(fitted):
+        det = _cmos()
+        persistence(det, trap_time_constants=[1.0], trap_proportions=[1.0],
+                    trap_densities_filename=f_fit_unit if fitted else f_unit, **kw(fitted, "trap_densities_"))
+        return (np.array(det.persistence.trapped_charge_array), det.pixel.array)
+
+    return [("equiv:conversion_with_qe_map", qe), ("equiv:fixed_pattern_noise", fpn),
+            ("equiv:persistence.capacities", pers_cap), ("equiv:persistence.densities", pers_dens)]
+
+
 def place_job(case) -> dict:
     from pyxel.models.charge_generation import load_charge
     from pyxel.models.photon_collection import load_image
@@ -59,12 +110,29 @@ def place_job(case) -> dict:
                 return det.charge.array
 
             routes += [("load_image", via_image), ("load_charge", via_charge)]
+            placed = None
             for name, fn in routes:
                 try:
                     out = fn()
                     events.append(dict(base, out="ok", matrix=_matrix(out), route=name))
+                    if name == "load_image":
+                        placed = np.asarray(out, dtype=float)
                 except ValueError as e:
                     events.append(dict(base, out="rejected", matrix=[], route=name, why=str(e)[:80]))
+            # every other model that fits a map onto the detector must behave exactly as if it had been given the
+            # already fitted map (what load_image placed, validated above) at offset (0, 0)
+            if placed is not None and case.get("equiv", True):
+                for name, fn in equiv_routes(arr, placed, f, wd, H, W, (oy, ox), align or None):
+                    try:
+                        a, b = fn(False), fn(True)
+                        same = all(np.array_equal(x, y, equal_nan=True) for x, y in zip(a, b))
+                        events.append(dict(base, out="ok", matrix=[], route=name, equiv=bool(same)))
+                    except ValueError as e:
+                        # an explicit refusal (these models do not accept maps smaller than the detector): not a
+                        # wrong placement
+                        events.append(dict(base, out="ok", matrix=[], route=name, equiv=True, why=f"refused: {e!r}"[:120]))
+                    except Exception as e:            # noqa: BLE001
+                        events.append(dict(base, out="ok", matrix=[], route=name, equiv=False, why=f"failed: {e!r}"[:160]))
         return {"events": events, "case": {"kind": "place", "case": case}}
     finally:
         shutil.rmtree(wd, ignore_errors=True)
